@@ -13,11 +13,19 @@ D = Decimal
 HELPERS = {("uni", "add_value"), ("uni", "rebalance"), ("uni", "remove_all"), ("squni", "add_value"), ("squni", "rebalance"), ("squni", "remove_all")}
 
 
-def build(case, observers=()):
+def build(case, observers=(), ensure_tokens=False):
     from demeter._typing import USD
 
     u = multi.Universe(case, observers, actuator=False)
     u.broker.quote_token = USD if case["quote"] == "USD" else u.tok[case["quote"]]
+    # what check_market() does before a backtest: the pool tokens of a market have a wallet entry (possibly zero)
+    # (valuation needs it: SqueethMarket.get_market_balance reads the oSQTH balance; atomicity checks run without it, so that
+    # rejected calls also meet wallets that have never held a token)
+    for key, mk in u.m.items() if ensure_tokens else ():
+        toks = [mk.base_token, mk.quote_token] if key in ("uni", "squni") else [mk.long_token, mk.short_token] if key == "gm" else []
+        for t in toks:
+            if t not in u.broker.assets:
+                u.broker.set_balance(t, 0)
     u.freeze(0)
     return u
 
